@@ -48,13 +48,14 @@ TEXT = {
               '(include_error_line). Sources WITH include tags (Proofs.C07Located, no hypothesis on the source, the start line or the include depth): whenever run returns an error e, '
               'e names the path and some TAG or OBJECT token t of the source, t.line = start line + newlines of the source before t, has e.line = t.line - a construct of the template itself, '
               'successful includes elsewhere do not shift lines (evaluated: `a\\n{% include "f" %}\\n{{ y }}` with f = two lines of text fails at line 3) - or the error is that of an included file: '
-              'some file f whose source src\' the file system holds (disk, else cache), some environment and some error e\' with the line and path flag of e such that run with one include level less on '
-              'src\' PARSED AT START LINE t.line returns e\' (run_error_located_at_token; the theorem applies to that run again); on a file system whose files have no include tag, e.line = t.line + '
-              'newlines of the FILE before a tag or object token t\' of the file (run_error_located_in_file_token); for every nesting depth the line is reached along a chain of files, each parsed at the line of a '
-              'tag or object token of the one before (run_error_chain, the inductive predicate ErrAt of Proofs.C07LocatedLemmas, by induction over the include levels), hence e.line >= start line for EVERY source '
-              '(run_error_line_ge_start_incl) and every error of run names the path (run_error_pathSet). Behind it: the end of the trace of a tree with include nodes is a tag or object of the tree or a site the include handler reports '
-              '(fin_traceNode ... render_error_eline_or_handler, Proofs.TraceFin), the handler\'s located error or sentinel is the error of run on the file (handlerEnds_incFuel), and the compile post-condition without the '
-              'no-include hypothesis (epostI_compileNode ..., Proofs.SrcCompileLinesInc). Determinate form (Proofs.C07First): firstFailure walks the compiled tree in render order with the renderer\'s '
+              't is a tag NAMED include, its argument text parses to an expression that evaluates, with the variables env\' the render has there, to a string rel, the file system holds (disk, else cache) a source src\' for dir(path)/rel, '
+              'and run with one include level less on src\' PARSED AT START LINE t.line with env\' returns an error e\' with the line and path flag of e (run_error_located_at_token; the theorem applies to that run again; '
+              'evaluated on include_error_line, where no token of the source stands at the error\'s line, so the second alternative is the one that holds); on a file system whose files have no include tag, e.line = t.line + '
+              'newlines of the FILE before a tag or object token t\' of the file (run_error_located_in_file_token); for every nesting depth the line is reached along a chain of included files, each parsed at the line of the '
+              'include tag of the one before (run_error_chain, the inductive predicate ErrAt of Proofs.C07LocatedLemmas, by induction over the include levels), hence e.line >= start line for EVERY source '
+              '(run_error_line_ge_start_incl) and every error of run names the path (run_error_pathSet). Behind it: the end of the trace of a tree with include nodes is a tag or object of the tree or a site the include handler reports for an include node of the tree '
+'(fin_traceNode ... render_error_eline_or_handler, Proofs.TraceFin), the handler\'s located error or sentinel is the error of run on the file (handlerEnds_incFuel), the compile post-condition without the '
+              'no-include hypothesis (epostI_compileNode ..., Proofs.SrcCompileLinesInc), and that the include nodes of a compiled tree stand at the lines of the tag tokens named include and carry their argument text (ipost_compileNode ..., Derives.itokLines, Proofs.IncLines). Determinate form (Proofs.C07First): firstFailure walks the compiled tree in render order with the renderer\'s '
               'state - a node of a sequence is reached only when the one before it returned done; an object, assign or cycle that fails, '
               'a break/continue, the if/elsif/when clause whose test fails, the case tag whose subject fails, the loop tag whose collection '
               'or modifier fails, the include tag whose argument fails or is no string, whose file cannot be read or that stands at the nesting limit of 100 (the handler\'s error has no location there) is the site; otherwise the walk goes into '
@@ -83,7 +84,7 @@ TEXT = {
               'the determinate statement is run_fails_at_firstFailure. firstFailure reads the DECISIONS of the walk (which branch is taken, '
               'which items are visited, the state after a node) off the fault-free run of the sub-programs, and the LOCATIONS off the tree; '
               'for an include node the site is the location of the handler\'s error (what that is, is stated under C14, not here: include_render_err_located in Proofs.C14Errors, '
-              'include_missing_located in Proofs.C14, include_depth_error in Proofs.C14Depth). firstFailure says nothing about a render that ends in the model outcomes panic or unmodelled (it is none there). run_error_located_at_token does not prove that the token t at whose line the file was parsed is a tag NAMED include (it is the tag or object token at the line of the include node of the compiled tree), nor that f is the evaluated argument joined to the template\'s directory (include_resolves, C14), and it relates e and e\' by line and path flag only, not by cause; ErrAt likewise. On line 0 of a template parsed '
+              'include_missing_located in Proofs.C14, include_depth_error in Proofs.C14Depth). firstFailure says nothing about a render that ends in the model outcomes panic or unmodelled (it is none there). run_error_located_at_token relates the error e of the template and the error e\' of the run on the included file by line and path flag only, not by cause (they are the same error whenever e\' has a line or a path: include_located_err_passes, Proofs.C14, audited under C14), and the variables env\' the file is rendered with are existential (they are those of the render at the tag: IncSite in Proofs.TraceFin says `some state`); ErrAt keeps the tokens and the file names, not the environments. On line 0 of a template parsed '
               'without a path a located error carries no information and is re-located by the enclosing block (WrapError): there the site is '
               'the enclosing block\'s tag, which is what relocate computes and what the real code does (errloc places at start line 0 too). '
               'Line 0 itself is reachable on a fault-free writer: Engine.ParseTemplate, ParseString and ParseAndRender compile at start line 0 '
